@@ -43,88 +43,109 @@ Section Atom.
   Definition rest_eq (s s' : lstate) : Prop :=
     stk s' = stk s /\ stk_total s' = stk_total s /\ names s' = names s /\ names0 s' = names0 s /\ cstor s' = cstor s.
 
-  Lemma reset_account_shape s a fee n s' :
+  (** the account entry written by resetAccount *)
+  Definition reset_entry (a0 : acct) (fee : option Z) (n : option N) : acct :=
+    {| bal := match fee with Some f => bal a0 - f | None => bal a0 end;
+       nonce := match n with Some k => k | None => nonce a0 end; code := code a0 |}.
+
+  Lemma reset_account_exact s a fee n s' :
     reset_account s a fee n = Some s' ->
-    rest_eq s s' /\ bp_reward s' = bp_reward s /\ receipts s' = receipts s /\
-    (forall id, id <> a_id a -> accts s' !! id = accts s !! id) /\
-    exists x, accts s' !! a_id a = Some x /\ code x = code (a_old a) /\
-      nonce x = match n with Some k => k | None => nonce (a_old a) end /\
-      bal x = match fee with Some f => bal (a_old a) - f | None => bal (a_old a) end /\
-      match fee with Some f => f <= bal (a_old a) | None => True end.
+    s' = with_accts s (<[a_id a := reset_entry (a_old a) fee n]> (accts s)) /\
+    match fee with Some f => f <= bal (a_old a) | None => True end.
   Proof.
-    unfold reset_account. intros H.
-    destruct fee as [f|].
+    unfold reset_account. intros H. destruct fee as [f|].
     - destruct (Z.ltb_spec (a_bal (a_reset a)) f) as [L|L]; [discriminate|]. injection H as <-.
-      unfold rest_eq, put_state. simpl. repeat split; auto.
-      + intros id Hid. destruct n; simpl; rewrite lookup_insert_ne by congruence; reflexivity.
-      + unfold a_bal in L. simpl in L.
-        destruct n; simpl; rewrite lookup_insert; eexists; (split; [reflexivity|]); simpl; repeat split; auto; unfold a_bal; simpl; lia.
-    - injection H as <-. unfold rest_eq, put_state. simpl. repeat split; auto.
-      + intros id Hid. destruct n; simpl; rewrite lookup_insert_ne by congruence; reflexivity.
-      + destruct n; simpl; rewrite lookup_insert; eexists; (split; [reflexivity|]); simpl; repeat split; auto.
+      unfold a_bal in L. simpl in L. split; [|exact L].
+      unfold put_state, reset_entry. destruct n; simpl; f_equal; f_equal; unfold set_nonce, set_bal, a_bal; simpl;
+        destruct (a_old a); simpl in *; f_equal; apply Z.abs_eq; lia.
+    - injection H as <-. split; [|exact I].
+      unfold put_state, reset_entry. destruct n; simpl; f_equal; f_equal; unfold set_nonce; simpl;
+        destruct (a_old a); reflexivity.
   Qed.
 
-  (** C03 FeeNonceOnly (partial: the exact new balance / nonce of the sender and payer entries
-      are given by exec_tx_supply and exec_tx_authorised, not restated here): a transaction
-      that fails at run time touches only the sender's and the payer's account entries,
-      BpReward (+fee) and the receipt list (one ERROR receipt); every other account, all
-      staking records, names and contract storages are untouched *)
-  Theorem exec_tx_fee_nonce_only_partial bno s t s' :
+  (** the receiver account of the transaction as executeTx determines it *)
+  Definition receiver_id (s : lstate) (t : tx) : N :=
+    let r := resolve is_name s (recipient_of t) in
+    if (r =? 0)%N then cid_of (t_from t) (t_nonce t) else r.
+
+  (** C03 FeeNonceOnly, exact: the post-state is the pre-state with
+      (a) payer = sender: the sender entry := (balance - fee, nonce := tx nonce), or
+      (b) fee delegation to a different account: sender entry := (nonce := tx nonce) and the
+          contract entry := (balance - fee);
+      BpReward += fee and one ERROR receipt appended.  Nothing else changes. *)
+  Theorem exec_tx_fee_nonce_only bno s t s' :
     xtx bno s t = (FeeNonceOnly, s') ->
-    rest_eq s s' /\
-    exists fee payer,
-      bp_reward s' = bp_reward s + fee /\ receipts s' = receipts s ++ [mk_receipt cfg t 2%N fee] /\
-      fee <= bal (acct_of s payer) /\
-      (forall id, id <> resolve is_name s (t_from t) -> id <> payer -> accts s' !! id = accts s !! id).
+    let sid := resolve is_name s (t_from t) in
+    let rid := receiver_id s t in
+    exists fee,
+      (fee <= bal (acct_of s sid) /\
+       s' = finish cfg (with_accts s (<[sid := reset_entry (acct_of s sid) (Some fee) (Some (t_nonce t))]> (accts s))) t 2%N fee)
+      \/
+      (t_kind t = KFeeDeleg /\ rid <> sid /\ fee <= bal (acct_of s rid) /\
+       s' = finish cfg (with_accts s (<[rid := reset_entry (acct_of s rid) (Some fee) None]>
+                                       (<[sid := reset_entry (acct_of s sid) None (Some (t_nonce t))]> (accts s)))) t 2%N fee).
   Proof.
-    intros H. set (sid := resolve is_name s (t_from t)). unfold exec_tx, exec_tx_core in H.
+    intros H. cbv zeta. set (sid := resolve is_name s (t_from t)). unfold exec_tx, exec_tx_core in H.
     destruct (validate tx_hash cfg t); cbn [negb] in H; [|discriminate].
     destruct (validate_with_sender_state cfg t _); cbn [negb] in H; [|discriminate].
     fold sid in H.
     assert (Body : forall receiver status, a_old receiver = acct_of s (a_id receiver) ->
       match exec_tx_body is_name vm cfg bno s t (get_astate s sid) receiver status with
       | RFeeNonce x => x = s' | _ => False end ->
-      rest_eq s s' /\
-      exists fee payer,
-        bp_reward s' = bp_reward s + fee /\ receipts s' = receipts s ++ [mk_receipt cfg t 2%N fee] /\
-        fee <= bal (acct_of s payer) /\
-        (forall id, id <> sid -> id <> payer -> accts s' !! id = accts s !! id)).
+      exists fee,
+      (fee <= bal (acct_of s sid) /\
+       s' = finish cfg (with_accts s (<[sid := reset_entry (acct_of s sid) (Some fee) (Some (t_nonce t))]> (accts s))) t 2%N fee)
+      \/
+      (t_kind t = KFeeDeleg /\ a_id receiver <> sid /\ fee <= bal (acct_of s (a_id receiver)) /\
+       s' = finish cfg (with_accts s (<[a_id receiver := reset_entry (acct_of s (a_id receiver)) (Some fee) None]>
+                                       (<[sid := reset_entry (acct_of s sid) None (Some (t_nonce t))]> (accts s)))) t 2%N fee)).
     { intros receiver status Rold B. unfold exec_tx_body in B.
       destruct (is_gov (t_kind t)).
       { destruct (exec_governance _ _ _ _ _ _ _) as [[[? ?] ?]|]; contradiction. }
+      assert (Single : forall sdx fee, a_id sdx = sid -> a_old sdx = acct_of s sid ->
+                match reset_account s sdx (Some fee) (Some (t_nonce t)) with
+                | Some s'' => RFeeNonce (finish cfg s'' t 2%N fee) | None => RRejected end = RFeeNonce s' ->
+                exists fee0, (fee0 <= bal (acct_of s sid) /\
+                  s' = finish cfg (with_accts s (<[sid := reset_entry (acct_of s sid) (Some fee0) (Some (t_nonce t))]> (accts s))) t 2%N fee0) \/
+                  (t_kind t = KFeeDeleg /\ a_id receiver <> sid /\ fee0 <= bal (acct_of s (a_id receiver)) /\
+                   s' = finish cfg (with_accts s (<[a_id receiver := reset_entry (acct_of s (a_id receiver)) (Some fee0) None]>
+                                       (<[sid := reset_entry (acct_of s sid) None (Some (t_nonce t))]> (accts s)))) t 2%N fee0)).
+      { intros sdx fee I O R. destruct (reset_account s sdx (Some fee) (Some (t_nonce t))) as [s2|] eqn:R1; [|discriminate].
+        destruct (reset_account_exact _ _ _ _ _ R1) as [E L]. rewrite I, O in E. rewrite O in L.
+        exists fee. left. split; [exact L|]. injection R as <-. rewrite E. reflexivity. }
       destruct (match t_kind t with KFeeDeleg => true | _ => false end) eqn:FD.
-      - destruct (validate_max_fee _ _ _ _ _ _); cbn [negb] in B; [|contradiction].
+      - assert (K : t_kind t = KFeeDeleg) by (destruct (t_kind t); try discriminate; reflexivity).
+        destruct (validate_max_fee _ _ _ _ _ _); cbn [negb] in B; [|contradiction].
         destruct (_ || _); [contradiction|].
         destruct (contract_execute vm cfg s t (get_astate s sid) receiver true) as [[[[c x] sd'] rc'] fee] eqn:CE.
-        destruct c; try contradiction.
-        destruct (contract_execute_runtime _ _ _ _ _ _ _ _ _ _ _ CE) as (->&I1&I2&O1&O2).
-        cbn [negb orb] in B. rewrite a_id_sub in B.
-        destruct (N.eqb_spec (a_id sd') (a_id rc')) as [E|E].
-        + destruct (reset_account s sd' (Some fee) (Some (t_nonce t))) as [s2|] eqn:R1; [|contradiction].
-          destruct (reset_account_shape _ _ _ _ _ R1) as (RE&Fb&Fr&Oth&x&Lk&Cx&Nx&Bx&Le).
-          rewrite I1 in Oth. rewrite O1 in Le. simpl in Oth, Le.
-          subst s'. split; [exact RE|]. exists fee, sid. simpl. rewrite Fb, Fr.
-          repeat split; auto.
-        + destruct (reset_account s sd' None (Some (t_nonce t))) as [s2|] eqn:R1; [|contradiction].
-          destruct (reset_account_shape _ _ _ _ _ R1) as (RE&Fb&Fr&Oth&x&Lk&Cx&Nx&Bx&_).
-          destruct (reset_account s2 (sub_bal rc' fee) (Some fee) None) as [s3|] eqn:R2; [|contradiction].
-          destruct (reset_account_shape _ _ _ _ _ R2) as (RE2&Fb2&Fr2&Oth2&y&Lk2&Cy&Ny&By&Le).
-          rewrite a_id_sub in Oth2. rewrite a_old_sub in Le. rewrite I1 in Oth. rewrite I2 in Oth2. rewrite O2, Rold in Le.
-          simpl in Oth.
-          subst s'. split.
-          { destruct RE as (?&?&?&?&?), RE2 as (?&?&?&?&?). unfold rest_eq. simpl. repeat split; congruence. }
-          exists fee, (a_id receiver). simpl. rewrite Fb2, Fr2, Fb, Fr.
-          repeat split; auto.
-          intros id H1 H2. rewrite Oth2, Oth by congruence. reflexivity.
+        destruct (c_fix_f24 cfg && (a_id sd' =? a_id rc')%N) eqn:F24.
+        + destruct c; try contradiction.
+          destruct (contract_execute_runtime _ _ _ _ _ _ _ _ _ _ _ CE) as (->&I1&I2&O1&O2).
+          apply andb_true_iff in F24 as [_ F24]. cbn [negb orb] in B. rewrite a_id_sub, F24 in B.
+          apply (Single (sub_bal sd' fee) fee); [rewrite a_id_sub; exact I1|rewrite a_old_sub; exact O1|].
+          destruct (reset_account s (sub_bal sd' fee) _ _); [f_equal; exact B|contradiction].
+        + destruct c; try contradiction.
+          destruct (contract_execute_runtime _ _ _ _ _ _ _ _ _ _ _ CE) as (->&I1&I2&O1&O2).
+          cbn [negb orb] in B. rewrite a_id_sub in B.
+          destruct (N.eqb_spec (a_id sd') (a_id rc')) as [E|E].
+          * apply (Single sd' fee); [exact I1|exact O1|].
+            destruct (reset_account s sd' _ _); [f_equal; exact B|contradiction].
+          * destruct (reset_account s sd' None (Some (t_nonce t))) as [s2|] eqn:R1; [|contradiction].
+            destruct (reset_account_exact _ _ _ _ _ R1) as [E1 _].
+            destruct (reset_account s2 (sub_bal rc' fee) (Some fee) None) as [s3|] eqn:R2; [|contradiction].
+            destruct (reset_account_exact _ _ _ _ _ R2) as [E2 L2].
+            rewrite a_id_sub, a_old_sub, I2, O2, Rold in E2. rewrite a_old_sub, O2, Rold in L2.
+            rewrite I1, O1 in E1. simpl in E1.
+            exists fee. right. rewrite I1, I2 in E. simpl in E.
+            split; [exact K|]. split; [congruence|]. split; [exact L2|].
+            subst s'. rewrite E2, E1. reflexivity.
       - destruct (contract_execute vm cfg s t (get_astate s sid) receiver false) as [[[[c x] sd'] rc'] fee] eqn:CE.
         destruct c; try contradiction.
         destruct (contract_execute_runtime _ _ _ _ _ _ _ _ _ _ _ CE) as (->&I1&I2&O1&O2).
         cbn [negb orb] in B.
-        destruct (reset_account s (sub_bal sd' fee) (Some fee) (Some (t_nonce t))) as [s2|] eqn:R1; [|contradiction].
-        destruct (reset_account_shape _ _ _ _ _ R1) as (RE&Fb&Fr&Oth&x&Lk&Cx&Nx&Bx&Le).
-        rewrite a_id_sub, I1 in Oth. rewrite a_old_sub, O1 in Le. simpl in Oth, Le.
-        subst s'. split; [exact RE|]. exists fee, sid. simpl. rewrite Fb, Fr.
-        repeat split; auto. }
+        apply (Single (sub_bal sd' fee) fee); [rewrite a_id_sub; exact I1|rewrite a_old_sub; exact O1|].
+        destruct (reset_account s (sub_bal sd' fee) _ _); [f_equal; exact B|contradiction]. }
+    unfold receiver_id.
     destruct (resolve is_name s (recipient_of t) =? 0)%N.
     - destruct (a_isnew _); cbn [negb] in H; [|discriminate].
       match type of H with match exec_tx_body _ _ _ _ _ _ _ ?r ?st with _ => _ end = _ => apply (Body r st); [reflexivity|] end.
